@@ -530,8 +530,8 @@ class FormatContext(object):
 
     def end(self, s):
         """Given a string, ends all the formatters in this context."""
-        if self.bold or self.reverse or \
-           self.fg or self.bg or self.underline:
+        if self.bold or self.reverse or self.underline or \
+           self.fg is not None or self.bg is not None:
             # Should we individually end formatters?
             s += '\x0f'
         return s
@@ -539,11 +539,16 @@ class FormatContext(object):
     def size(self):
         """Returns the number of bytes needed to reproduce this context in an
         IRC string."""
+        # Color 0 (white) is a color too, hence the "is not None".
+        has_fg = self.fg is not None
+        has_bg = self.bg is not None
         prefix_size = self.bold + self.reverse + self.underline + \
-                bool(self.fg) + bool(self.bg)
-        if self.fg and self.bg:
-            prefix_size += 6 # '\x03xx,yy%s'
-        elif self.fg or self.bg:
+                has_fg + has_bg
+        if has_bg:
+            # '\x03xx,yy%s'; start() gives a lone background the
+            # foreground 00.
+            prefix_size += 6
+        elif has_fg:
             prefix_size += 3 # '\x03xx%s'
         if prefix_size:
             return prefix_size + 1 # '\x0f'
